@@ -728,6 +728,19 @@ def r_ccg2lambda_vocab(repo, rep, R='R15.4'):
     want_rules = {('ifexp', u_, A(N(pnode), 'op_symbol'), A(N(pnode), 'op_string')) for u_ in (A(N('self'), 'use_symbol'), N('use_symbol'))}
     rules_set = {e[1][2][1] for st, o in SymExec(trav, unroll=1, no_inline=(trav.name,)).run() for e in st.events
                  if e[0] == 'call' and e[1][1][0] == 'attr' and e[1][1][2] == 'set' and len(e[1][2]) == 2 and e[1][2][0] == C('rule')}
+    # the choice may be made once, in the constructor: self._label = attrgetter('op_symbol' if use_symbol else 'op_string'),
+    # applied to the node where the attribute is written
+    cls_ = getattr(_ccg, '_parent', None)
+    if len(rules_set) == 1 and not rules_set <= want_rules and isinstance(cls_, ast.ClassDef):
+        r0 = next(iter(rules_set))
+        init_ = next((f_ for f_ in cls_.body if isinstance(f_, ast.FunctionDef) and f_.name == '__init__'), None)
+        if r0[0] == 'call' and r0[1][0] == 'attr' and r0[1][1] == N('self') and r0[2] == (N(pnode),) and not r0[3] and init_ is not None:
+            for st_, o_ in SymExec(init_, unroll=1).run():
+                g_ = st_.env.get('self.' + r0[1][2])
+                if g_ is not None and g_[0] == 'call' and g_[1] in (N('attrgetter'), A(N('operator'), 'attrgetter')) and len(g_[2]) == 1 and g_[2][0][0] == 'ifexp' \
+                        and g_[2][0][2][0] == 'const' and g_[2][0][3][0] == 'const':
+                    c_ = g_[2][0]
+                    rules_set = {('ifexp', c_[1], A(N(pnode), c_[2][1]), A(N(pnode), c_[3][1]))}
     rep.check(len(rules_set) == 1 and rules_set <= want_rules, R, '%s:%s traverse' % (JX, trav.lineno), 'jigg:rule-select',
               'the rule attribute is op_symbol when use_symbol else op_string', 'rule attribute is %s' % [show(x) for x in rules_set])
     return len(feeds)
